@@ -24,6 +24,7 @@ RULE = (
     "Invariant on every transition: no exception, covariance symmetric and lambda_min >= 0 up to 1e-9 x the largest covariance magnitude met along the history (rounding of G P G^T and P - K H P is relative to the operands, and is inherited by later, smaller covariances). distinct = "
     "distinct canonical states; non-trivial = all states beyond the initial ones."
     " Further: sing-copies (three exactly proportional states, precise sensor) from priors that know one state 1e6 / 3e5 times worse than the others; chain5 (five-state integrator chain, four sensors of 1-2 readings with noise 1e-5..1e-2) from 2^30 I and 2^34 I, BFS depth 3 plus whole-tick patterns (one prediction, then every sensor, in every rotation) repeated 24 / 96 times."
+    " sing-copies-inexact (coefficients 7/10 and 13/10: two null directions, both rounded) from mixed priors 1e6 / 3e5 / 1e7."
 )
 ASSUMPTIONS = [
     "bounded histories: states with |x| > 64 or |P| entries above 1e6 or non-finite are not expanded (counted as pruned)",
@@ -41,6 +42,7 @@ def models():
     out.append(gentle_def(1, 1, 1, (2, 1), 0))  # bounded pendulum-like dynamics: long histories stay O(1)
     out.append(lin_full())
     out.append(sing_copies())
+    out.append(sing_copies(((7, 10), (13, 10)), "sing-copies-inexact"))  # coefficients that are not exact in binary: two null directions, both rounded
     out.append(chain5())
     return out
 
@@ -58,15 +60,15 @@ def chain5():
     return space.mkdef("chain5", [f"x{i}" for i in (3, 1, 5, 2, 4)], ["u"], [], model, [], [["u", 0.25]], sensors, snoise)
 
 
-def sing_copies():
+def sing_copies(coeffs=((2, 1), (3, 1)), name="sing-copies"):
     """three states that are exact multiples of each other after one prediction (rank-1 covariance), a precise sensor on one of
     them: the update collapses a large prior by many orders of magnitude in a singular direction"""
     S, add, mul, C = space.S, space.add, space.mul, space.C
     t = S("T")
-    model = [["T", t], ["b1", mul(C(2), t)], ["b2", mul(C(3), t)]]
+    model = [["T", t], ["b1", mul(C(*coeffs[0]), t)], ["b2", mul(C(*coeffs[1]), t)]]
     sensors = [["t", [["r", t]]], ["s", [["r", add(S("b1"), S("b2"))]]]]
     snoise = [["s", [["r", 0.5]]], ["t", [["r", 1e-3]]]]
-    return space.mkdef("sing-copies", ["b2", "T", "b1"], [], [], model, [], [], sensors, snoise)
+    return space.mkdef(name, ["b2", "T", "b1"], [], [], model, [], [], sensors, snoise)
 
 
 def lin_full():
@@ -124,7 +126,7 @@ def cases(tier, seed):
         if d["name"].startswith("sing-"):
             n_ = len(d["state"])
             for hot in range(min(n_, 2)):
-                for big in (1e6, 3e5):  # decimal magnitudes on purpose: with powers of two every product here is exact and nothing rounds
+                for big in ((1e6, 3e5, 1e7) if "copies" in d["name"] or tier != "quick" else (1e6,)):  # decimal magnitudes on purpose: with powers of two every product here is exact and nothing rounds
                     yield {"def": d, "P0": [[(big if i == hot else 1.0) if i == j else 0.0 for j in range(n_)] for i in range(n_)],
                            "P0name": f"mixed-{big:g}@{hot}", "depth": depth, "seed": seed, "pbound": 2.0 ** 60}
     # long histories: EVERY periodic event pattern of period 1 and 2 over the same alphabet, run for many steps
